@@ -133,7 +133,7 @@ PROPS = {
     "C20": dict(
         cases_mod="CasesText", check_fn="check_C20", shard=200,
         rule='Display of Dates/Times/DateTimes (all eras, offsets); serde_json round trips of Dates (all eras incl. years beyond 9999 and negative), Times with offsets (thorough: all 86400 seconds), DateTimes in years 1..9999 x whole-minute offsets; FromStr and Deserialize on hand-written valid, out-of-range and malformed strings. Non-trivial: every case.',
-        explanation="see props/C20.v for what is proved; figures describe the differential run.",
+        explanation="Proved for the model (props/C20.v, FieldProofs.v): Display of Date/Time/DateTime is the documented fixed pattern applied to the local fields; serialize-then-deserialize returns the same Date (every day number), a Time showing the same HH:mm:ss, the same DateTime instant (to the second) and offset for local years 1..9999 and whole-minute offsets; FromStr never panics and an Ok is a valid value. The serde framework is outside the model; the run performs the real serde_json round trip.",
         trusted_base=TB_COMMON + ["serde / serde_json (C20) from the offline cargo cache"], assumptions=ASSUME_COMMON + ["the current year read by the two-letter year parser is a parameter (now_year) passed by the harness"],
     ),
 }
